@@ -312,6 +312,12 @@ static var Range_Get(var self, var key) {
   int64_t i = c_int(key);
   i = i < 0 ? Range_Len(r)+i : i;
   
+  if (i < 0) {
+    return throw(IndexOutOfBoundsError, 
+      "Index '%i' out of bounds for Range of start %i, stop %i and step %i.", 
+      key, $I(r->start), $I(r->stop), $I(r->step));
+  }
+  
   if (r->step == 0) {
     x->val = 0;
     return x;
